@@ -498,7 +498,8 @@ impl Config {
                                     subnet
                                 ))
                             })?;
-                        for i in 1..(size.saturating_sub(1).saturating_sub(1)) {
+                        /* Everything but the network (first) and broadcast (last) address. */
+                        for i in 1..size.saturating_sub(1) {
                             addresses.push((base + i).into())
                         }
                     }
